@@ -15,6 +15,36 @@ open HC HC.Stream HC.Lib HC.Proto.H11 HC.Utils HC.Extracted
 
 /-! ### scope -/
 
+/-- **the split of the request target** (re-decided against the current source: `targetRawPath` / `targetQuery` are the
+    expressions `HTTPStream.handle(Request)` puts under `raw_path` / `query_string`, and `path` is the percent-decoded `raw_path`):
+    the target is cut at the first `?` and nowhere else - no other character of it (`#`, `;`, a leading `//`, `scheme://host`,
+    a second `?`) is interpreted, nothing is dropped -/
+theorem target_split_spec (raw : Bytes) :
+    ReqGlue.targetRawPath raw = (Bytes.partitionB 63 raw).1 ∧ ReqGlue.targetQuery raw = (Bytes.partitionB 63 raw).2.2 ∧
+    (63 : UInt8) ∉ ReqGlue.targetRawPath raw ∧
+    (raw = ReqGlue.targetRawPath raw ++ ReqGlue.targetQuery raw ∨ raw = ReqGlue.targetRawPath raw ++ 63 :: ReqGlue.targetQuery raw) ∧
+    ((63 : UInt8) ∉ raw → ReqGlue.targetRawPath raw = raw ∧ ReqGlue.targetQuery raw = []) := by
+  have h1 : ReqGlue.targetRawPath raw = (Bytes.partitionB 63 raw).1 := by rfl
+  have h2 : ReqGlue.targetQuery raw = (Bytes.partitionB 63 raw).2.2 := by rfl
+  have hj := Bytes.partitionB_join 63 raw
+  rw [h1, h2]
+  cases hp : Bytes.partitionB 63 raw with
+  | mk h ft =>
+    obtain ⟨f, t⟩ := ft
+    simp only [hp] at hj
+    obtain ⟨j1, j2, j3⟩ := hj
+    refine ⟨rfl, rfl, j2, ?_, ?_⟩
+    · cases f with
+      | true => right; simpa using j1
+      | false => left; simpa using j1
+    · intro hq
+      cases f with
+      | true => exfalso; apply hq; rw [j1]; simp
+      | false => have := j3 rfl; subst this; simpa using j1.symm
+
+example : ReqGlue.targetRawPath "//cdn/assets/app.js?v=1".b = "//cdn/assets/app.js".b ∧ ReqGlue.targetQuery "/search?q=a#b".b = "q=a#b".b ∧
+    ReqGlue.targetRawPath "http://h/p?q".b = "http://h/p".b ∧ ReqGlue.targetQuery "/x?a?b".b = "a?b".b := by decide
+
 /-- **HTTP/1 scope**: method upper-cased, target split at the first `?` into raw path and query string (nothing lost),
     version and header list passed through (raw pairs when `h11_pass_raw_headers`) -/
 theorem scope_h1 (cfg : Cfg) (r : ReqEv) (ws : Bool) :
@@ -25,21 +55,9 @@ theorem scope_h1 (cfg : Cfg) (r : ReqEv) (ws : Bool) :
     (63 : UInt8) ∉ sc.rawPath ∧
     (r.target = sc.rawPath ++ sc.query ∨ r.target = sc.rawPath ++ 63 :: sc.query) ∧
     ((63 : UInt8) ∉ r.target → sc.rawPath = r.target ∧ sc.query = []) := by
-  have hj := Bytes.partitionB_join 63 r.target
+  obtain ⟨-, -, h2, h1, h3⟩ := target_split_spec r.target
   simp only [scopeOf, decodeAsciiUpper]
-  cases hp : Bytes.partitionB 63 r.target with
-  | mk h ft =>
-    obtain ⟨f, t⟩ := ft
-    simp only [hp] at hj
-    obtain ⟨h1, h2, h3⟩ := hj
-    refine ⟨trivial, trivial, trivial, h2, ?_, ?_⟩
-    · cases f with
-      | true => right; simpa using h1
-      | false => left; simpa using h1
-    · intro hq
-      cases f with
-      | true => exfalso; apply hq; rw [h1]; simp
-      | false => have := h3 rfl; subst this; simpa using h1.symm
+  exact ⟨trivial, trivial, trivial, h2, h1, h3⟩
 
 /-- a WebSocket is chosen exactly for GET + `Upgrade: websocket` + a `Connection` token `upgrade` -/
 theorem websocket_iff (r : ReqEv) :
@@ -335,19 +353,10 @@ theorem h2_request_end_to_end (i kaMax : Nat) (s0 s : HC.Proto.H2Recv.St) (ops :
     rcases List.mem_append.mp hmem with h | h
     · simp at h
     · cases complete <;> simp at h
-  · have hj := Bytes.partitionB_join 63 ((lastVal hs ":path".b).getD [])
-    simp only [HC.Proto.H2Deliver.scopeOf, requestOf]
-    cases hp : Bytes.partitionB 63 ((lastVal hs ":path".b).getD []) with
-    | mk h ft => obtain ⟨f, t⟩ := ft; simp only [hp] at hj; exact hj.2.1
-  · have hj := Bytes.partitionB_join 63 ((lastVal hs ":path".b).getD [])
-    simp only [HC.Proto.H2Deliver.scopeOf, requestOf]
-    cases hp : Bytes.partitionB 63 ((lastVal hs ":path".b).getD []) with
-    | mk h ft =>
-      obtain ⟨f, t⟩ := ft
-      simp only [hp] at hj
-      cases f with
-      | true => right; simpa using hj.1
-      | false => left; simpa using hj.1
+  · simp only [HC.Proto.H2Deliver.scopeOf, requestOf]
+    exact (target_split_spec _).2.2.1
+  · simp only [HC.Proto.H2Deliver.scopeOf, requestOf]
+    exact (target_split_spec _).2.2.2.1
   · have hin : (ds.map (fun p => Dlv.body i p.1) ++ (if complete then [Dlv.endBody i] else [])).filterMap toIn =
         (ds.map (·.1)).map Http.In.body ++ (if complete then [Http.In.endBody] else []) := by
       rw [List.filterMap_append]
